@@ -13,6 +13,7 @@ import BtcHd.Model.JsonText
 import BtcHd.Model.Extra
 import BtcHd.Prims.Sha
 import BtcHd.Prims.Secp256k1
+import BtcHd.Prims.Bundle
 
 open BtcHd
 
@@ -20,20 +21,10 @@ namespace Driver
 
 /-! ### concrete primitives -/
 
-def realCurve : Curve Real.Secp.Pt where
-  n := Real.Secp.n
-  mulGen := Real.Secp.mulGen
-  add := Real.Secp.add
-  isInf := fun p => p.isNone
-  sec := Real.Secp.sec
-  parse := Real.Secp.parse
+/-- the bundle for which `Props/RealCurve.lean` proves the curve laws (`Prims/Bundle.lean`) -/
+abbrev realCurve : Curve Real.Secp.Pt := Real.Secp.rawCurve
 
-def realPrims (nfkd : List Char → List Char) : Prims Real.Secp.Pt where
-  sha256 := Real.sha256
-  hmac512 := Real.hmacSha512
-  pbkdf2 := Real.pbkdf2Sha512
-  nfkd := nfkd
-  curve := realCurve
+abbrev realPrims (nfkd : List Char → List Char) : Prims Real.Secp.Pt := Real.Secp.rawPrims nfkd
 
 abbrev RP := Prims Real.Secp.Pt
 
@@ -344,6 +335,19 @@ def step (line : String) : String :=
   | ["ckd", nd, ls, prf] => orBad do
       let nd ← unnode nd; let ls ← unlist unnat ls; let prf ← unprf prf
       pure (optS nodeS (Bip32.derivePath (primsWith prf []) nd ls))
+  -- public byte/integer and address helpers of helper.py, called directly
+  | ["i2be", n, len] => orBad do let n ← unnat n; let len ← unnat len; pure (optS hexS (toBytesBE len n))
+  | ["i2le", n, len] => orBad do let n ← unnat n; let len ← unnat len; pure (optS hexS (toBytesLE len n))
+  | ["be2i", b] => orBad do let b ← unhex b; pure (okS (toString (beToNat b)))
+  | ["le2i", b] => orBad do let b ← unhex b; pure (okS (toString (leToNat b)))
+  | ["h_addr", kind, h, t, wv] => orBad do
+      let h ← unhex h; let t ← unbool t; let wv ← unnat wv
+      match kind with
+      | "p2pkh" => pure (okS (strS (Wallet.p2pkhOfH160 P0 h t)))
+      | "p2sh" => pure (okS (strS (Wallet.p2shOfH160 P0 h t)))
+      | "p2wpkh" | "p2wsh" =>
+        pure (optS strS (Bech32.encode (if t then Generated.hrpTest else Generated.hrpMain) wv h))
+      | _ => none
   -- C18: the SAME node object is asked again and again (`c` = ckd, `d` = derive_path of the one-element list);
   -- in the model a node is a value, so every request gives the answer of the first
   | ["ckd_retry", nd, i, prf, pat] => orBad do
